@@ -20,6 +20,13 @@ stream `props`  : single descriptors (update_xml_value / get_py_value_from_node)
                   XmlStruct.Model.run_prop (vm_compute).
 stream `update` : the same cases, descriptor.update_from_node on an instance whose member is pre-set, vs.
                   XmlStruct.Instance.run_update; oracle: result = result on a fresh instance.
+stream `get`    : the same cases, descriptor.__get__ on an instance that stores what the reader returned (values
+                  include every falsy value of the member type: False, 0, 0.0, Decimal 0, '', first enum member)
+                  vs. XmlStruct.Instance.run_get (policy GetIfNone); oracle: a stored value is returned as it is,
+                  the implied value only when nothing is stored.  The classes stream compares written and read
+                  values ALSO through attribute access (getattr, not the storage slots), checks getattr against the
+                  stored value and against the value the reader finds in the document, and runs a falsy pass: every
+                  member of every class set to every falsy value of its type, written, parsed, read via getattr.
 stream `own`    : the opaque members (ext:Extension, wsa:ReferenceParameters / Metadata, any) under random sequences
                   of assign / parse / read / write, content of every document and of the value after every step vs.
                   XmlStruct.Instance.run_own (element ownership, attach mode Copy); oracle: no step changes an
@@ -76,6 +83,7 @@ def run(ctx):
         st = res['stats']
         ctx.count('classes', n_inst, res.get('digests', []),
                   classes=len(res['results']), instances_ok=n_ok, xsd_validated=n_val, classes_with_failures=len(failing),
+                  falsy_value_cases=sum(r.get('falsy', 0) for r in res['results'].values()),
                   histogram={k: v for k, v in sorted(st.items())})
         ctx.sample({'stream': 'classes', 'seed': seed, 'per_class': per_class,
                     'one_class': next(iter(res['results'].items()))})
@@ -137,6 +145,33 @@ def run(ctx):
         ctx.count('update', len(good), [c['uinput'] for c in good],
                   reader_returned_none=sum(1 for c in good if c['read_none']),
                   differs_from_fresh=sum(1 for c in good if c['stale']))
+        # ------------------------------------------------------------ stream get (attribute access)
+        gcases = [c for c in good if c.get('get')]
+        for c in gcases:
+            if c['get']['wrong']:
+                ctx.fail(f'get: {c["member"]}: attribute access does not return the value that is stored / implied',
+                         {'stream': 'get', 'clause': 'attribute access differs from the stored value', 'descriptor': c['descriptor']},
+                         {'stream': 'get', 'case': {'member': c['member'], 'descriptor': c['descriptor'], 'seed': pseed, 'count': count},
+                          'oracle': {'verdict': 'fail', 'clause': 'the value read back (through attribute access) equals the value in the document'},
+                          'detail': c['get']['wrong']})
+        glits = [(c['get']['ginput'], c['get']['gout']) for c in gcases]
+        mism, err = ctx.coq_mism('get', HEADER_I, 'val_eqb', 'run_get', glits, shard=400,
+                                 deps=['XmlStruct/Model.vo', 'XmlStruct/Instance.vo'])
+        if err:
+            ctx.broken('correspondence', 'get (coq evaluation)', err)
+        if mism:
+            i = mism[0]
+            by_desc = {}
+            for j in mism:
+                by_desc[gcases[j]['descriptor']] = by_desc.get(gcases[j]['descriptor'], 0) + 1
+            ctx.broken('correspondence', 'get', {'disagreements': len(mism), 'by_descriptor': by_desc,
+                                                 'first_case': {'member': gcases[i]['member'], **gcases[i]['get']},
+                                                 'model': ctx.coq_eval(HEADER_I, f'run_get {glits[i][0]}')[-800:]})
+        ctx.count('get', len(gcases), [c['get']['ginput'] for c in gcases],
+                  member_has_implied_value=sum(1 for c in gcases if c['get']['has_implied']),
+                  falsy_value_present=sum(1 for c in gcases if c['get']['falsy_present']),
+                  falsy_present_and_implied=sum(1 for c in gcases if c['get']['falsy_present'] and c['get']['has_implied']),
+                  nothing_stored_and_implied=sum(1 for c in gcases if c['read_none'] and c['get']['has_implied']))
     # ---------------------------------------------------------------- stream own (element ownership)
     ocount = ctx.n(600, 12000)
     oseed = ctx.rng.randrange(1 << 30)
@@ -189,7 +224,9 @@ def run(ctx):
              'members; props: one descriptor per case (all descriptor classes in rotation), update_xml_value + '
              'get_py_value_from_node vs XmlStruct.Model.run_prop; update: the same descriptor cases, update_from_node on an '
              'instance whose member is pre-set vs XmlStruct.Instance.run_update, oracle = equal to the result on a fresh '
-             'instance; own: random assign/parse/read/write sequences on the opaque members vs XmlStruct.Instance.run_own, '
+             'instance; get: descriptor.__get__ on the value the reader returned vs XmlStruct.Instance.run_get, oracle = a stored '
+             'value (also a falsy one) is returned unchanged, the implied value only when nothing is stored; classes also '
+             'compares through getattr and sets every member to every falsy value of its type (falsy pass); own: random assign/parse/read/write sequences on the opaque members vs XmlStruct.Instance.run_own, '
              'oracle = no step changes an existing document, a write leaves the value alone and the new document holds '
              'its content; classes additionally: every value written twice (outputs, earlier tree, value, source document '
              'compared), every document read with optional parts removed and into populated instances / through the '
@@ -219,12 +256,13 @@ def run(ctx):
 
 def replay(ctx, rep):
     case = rep.get('case', {})
-    if rep.get('stream') in ('update', 'own'):
-        stream = 'props' if rep['stream'] == 'update' else 'own'
+    if rep.get('stream') in ('update', 'own', 'get'):
+        stream = 'own' if rep['stream'] == 'own' else 'props'
         res = ctx.impl('c05_impl', {'stream': stream, 'seed': case.get('seed', 1), 'count': case.get('count', 600)})
         hits = [c for c in res.get('cases', []) if c.get('member') == case.get('member') and
-                (c.get('stale') if stream == 'props' else c.get('why'))]
-        print(json.dumps([{k: c.get(k) for k in ('member', 'descriptor', 'stale', 'why', 'input', 'trace')} for c in hits[:3]],
+                (c.get('why') if stream == 'own' else
+                 c.get('stale') if rep['stream'] == 'update' else (c.get('get') or {}).get('wrong'))]
+        print(json.dumps([{k: c.get(k) for k in ('member', 'descriptor', 'stale', 'get', 'why', 'input', 'trace')} for c in hits[:3]],
                          indent=1)[:6000])
         return 1 if hits else 0
     res = ctx.impl('c05_impl', {'stream': 'classes', 'seed': case.get('seed', 1), 'per_class': case.get('per_class', 8),
